@@ -21,7 +21,7 @@ def judge(rep, pid, cases, obs, probes):
     rejects = core.validate("fileio", "Trace_FileIO", traces + pr, workers=8)
     rej = {x[0] for x in rejects}
     if not pr or any(p["id"] not in rej for p in pr):
-        raise core.MachineryError("P accepted corrupted traces")
+        core.probe_fail(rejects, "P accepted corrupted traces")
     rep.extra["probes_rejected"] = len(pr)
     rep.traces = len(traces)
     for tid, clause, _ in rejects:
